@@ -39,7 +39,15 @@ def main(argv=None):
     R.max_timeout = 300 if args.tier == "quick" else 3600
     try:
         try:
-            mod.run(chk, R, args.tier, args.seed)
+            # VERIF_ROUNDS=n repeats the whole workload with n different
+            # generator seeds (seed, seed + 1000, ...) into one verdict and
+            # one evidence file: the knob for going deeper than the default
+            # thorough tier
+            rounds = max(1, int(os.environ.get("VERIF_ROUNDS", "1") or 1))
+            for rnd in range(rounds):
+                mod.run(chk, R, args.tier, args.seed + 1000 * rnd)
+            if rounds > 1:
+                chk.count("rounds (VERIF_ROUNDS)", rounds)
         except Exception:
             import traceback
             chk.inconclusive_because("check crashed: " +
